@@ -20,12 +20,17 @@ def proof_side(prop, ctx):
     t0 = time.time()
     info = regen()
     log(info)
+    try:
+        status = json.load(open(os.path.join(COQ, "gen", "status.json")))
+    except (OSError, ValueError):
+        status = {}
+    pre = [("translator", "TRANSLATE-ERROR: " + status[prop])] if prop in status else []
     rc, out = coq_make()
     if rc != 0:
         err = out[-3000:]
         return 0, 0, [("coq-build", err)], []
     bad = grep_forbidden()
-    probs = []
+    probs = list(pre)
     if bad:
         probs.append(("forbidden-vernacular", "\n".join(bad[:20])))
     if not os.path.exists(os.path.join(COQ, "props", "%s.v" % prop)):
